@@ -380,6 +380,26 @@ impl TestRunner {
     }
 }
 
+/// Verification hook: read-only views of the runner's private state
+#[cfg(mos_verif)]
+impl TestRunner {
+    pub fn verif_test_elements(&self) -> &Vec<TestElement> {
+        &self.test_elements
+    }
+
+    pub fn verif_ram(&self) -> Vec<u8> {
+        self.ram.read().unwrap().ram.clone()
+    }
+
+    pub fn verif_tree(&self) -> Arc<ParseTree> {
+        self.tree.clone()
+    }
+
+    pub fn verif_formatted_traces(&self) -> Vec<String> {
+        self.formatted_traces.iter().map(|t| t.0.clone()).collect()
+    }
+}
+
 fn format_trace(trace: &Trace, ctx: &CodegenContext) -> String {
     let mut eval = vec![];
     for expr in &trace.exprs {
